@@ -42,7 +42,11 @@ func init() {
 			panic(err)
 		}
 		b := &redisLockBackend{sim: sim, srv: srv}
-		for i := 0; i < cfg.Contenders; i++ {
+		n := cfg.Contenders
+		if cfg.Shared {
+			n = 1
+		}
+		for i := 0; i < n; i++ {
 			r, cl, err := newRediaron(srv, sim.NewInstance(), fmt.Sprintf("redis-c%d", i))
 			if err != nil {
 				panic(err)
@@ -73,7 +77,7 @@ func init() {
 func (b *redisLockBackend) lockKey(key string) string { return redisLockPrefix + "/" + key }
 
 func (b *redisLockBackend) newLock(i int, key string, ttl time.Duration) (lock.DistributedLock, error) {
-	return b.stores[i].CreateLock(key, ttl)
+	return b.stores[i%len(b.stores)].CreateLock(key, ttl)
 }
 func (b *redisLockBackend) revoke(key string) bool { return false }
 func (b *redisLockBackend) pause(i int, d time.Duration) {
